@@ -192,6 +192,7 @@ class RecordingExecutor(DagExecutor):
     """Wraps a real executor; records whether (and how often) execution was entered."""
 
     def __init__(self, inner: DagExecutor):
+        super().__init__()
         self.inner = inner
         self.entered = 0
 
@@ -206,6 +207,7 @@ class RecordingExecutor(DagExecutor):
 
 class NeverExecutor(DagExecutor):
     def __init__(self):
+        super().__init__()
         self.entered = 0
 
     @property
@@ -308,6 +310,7 @@ class ScheduleExecutor(DagExecutor):
     (pipeline.function(m, config=pipeline.config)); nothing is re-implemented."""
 
     def __init__(self, schedule: Optional[Schedule] = None):
+        super().__init__()
         self.s = schedule or Schedule()
         self.entered = 0
         self.tasks_run = []  # (op name, repr(task input))
